@@ -73,6 +73,8 @@ class Rendered:
         self.units = {}
         self.touched = set()
         self.nlines = 0
+        self.blocks = []      # typedef / interface blocks: {'kind', 'name', 'unit', 'span'}
+        self.how = set()      # every layout perturbation used anywhere in the file
 
 
 class Renderer:
@@ -228,6 +230,9 @@ class Renderer:
             self.out.stmts.append({'tag': g['tag'], 'span': [first, last], 'unit': g['unit'], 'shared': len(group) > 1,
                                    'pos': gi, 'cont': last > first, 'label': g['label'], 'fact': g['fact'],
                                    'lead': lead, 'key': g['key']})
+            if len(group) > 1:
+                self.out.how.add('semicolon')
+            self.out.how |= how
             if g['fact']:
                 if len(group) > 1:
                     how.add('semicolon')
@@ -498,6 +503,15 @@ class Renderer:
 
     # ------------------------------------------------------------------ program units
     def iface(self, it, level, unit):
+        self.flush()
+        n0 = len(self.out.stmts)
+        self._iface(it, level, unit)
+        self.flush()
+        mine = [s_ for s_ in self.out.stmts[n0:] if s_['tag'] in ('iface-stmt', 'end-iface')]
+        self.out.blocks.append({'kind': 'interface', 'name': it[1] if it[0] in ('generic', 'operator') else None,
+                                'unit': unit, 'span': [mine[0]['span'][0], mine[-1]['span'][1]]})
+
+    def _iface(self, it, level, unit):
         kind = it[0]
         if kind == 'generic':
             self.stmt([kw('interface', ''), idt(it[1])], 'iface-stmt', level, unit, fact='ifaces', key=it[1])
@@ -540,7 +554,7 @@ class Renderer:
         toks.append(pu(')'))
         self.stmt(toks, 'iface-body-stmt', level, unit, fact='ifaces', key=name)
         if sig == 'this':
-            self.stmt([kw('import', '')] + self.dc() + [idt(bd[3])], 'iface-body-decl', level + 1, unit)
+            self.stmt([kw('import', '')] + self.dc() + [idt(bd[3])], 'iface-body-import', level + 1, unit)
             self.stmt(self.decl(self.typ('class', bd[3]), ['this'], [self.intent('inout')]), 'iface-body-decl',
                       level + 1, unit)
             self.stmt(self.decl([kw('integer', '')], ['x'], [self.intent('inout')]), 'iface-body-decl', level + 1, unit)
@@ -565,7 +579,11 @@ class Renderer:
         if t['attrs'] or self.L.get('dcolon', True):
             hdr.append(pu('::', ' '))
         hdr.append(idt(t['name']))
+        self.flush()
+        blk = {'kind': 'typedef', 'name': t['name'], 'unit': unit, 'span': None}
         self.stmt(hdr, 'type-stmt', level, unit, fact='typedefs', key=t['name'])
+        self.flush()
+        blk['span'] = [self.out.stmts[-1]['span'][0], None]
         for c in t['comps']:
             if c[1] is None:
                 self.stmt(self.decl([kw('integer', '')], [c[0]], init=['i', 1]), 'comp-decl', level + 1, unit, join=True)
@@ -600,8 +618,12 @@ class Renderer:
                         s = ' ' if self.L.get('spaces', 1) else ''
                         toks += [T('=>', OP, s), idt(tgt, s)]
                     self.stmt(toks, 'deferred-binding' if ifc else 'binding', level + 1, unit, fact='typedefs', key=bname)
+        self.flush()
         self.stmt(self.end_toks('type', t['name'] if self.ch.pick(3) else None, 'endjoin_type'), 'end-type', level,
                   unit, fact='typedefs')
+        self.flush()
+        blk['span'][1] = self.out.stmts[-1]['span'][1]
+        self.out.blocks.append(blk)
 
     def routine(self, r, level, path):
         self.flush()
